@@ -39,6 +39,11 @@ CHECKS = {
             "value provably has a caller-controlled column count or holds general eigenvectors, proved when it is a (column selection of a) unitary factor, undecided otherwise.",
             "Trusted: oracle `allowed` in sa/annot.py (one line per combinator with its reason); backend provenance table in sa/prov.py (eigh/svd/qr/eig). Numerical orthogonality of "
             "Krylov bases and PSD-ness of user data are not decided.", "4/C05"),
+    "C02": ("term rewriting (abstract interpretation of product methods and transpose/adjoint rules into a free algebra over T, C, inv, products, sums, factor families; normal-form comparison)",
+            "Decides the algebraic shape, not the numbers: every explicit _rmatmat must be right-multiplication by the same term its _matmat left-multiplies with (Dense, Sparse, "
+            "Product order, Sum, Diagonal broadcasting idiom, Transpose, Adjoint, TriangularInv incl. the lower flag); the default _rmatmat's self-adjoint shortcut must equal X*A "
+            "under H(A)=A; each transpose/adjoint rule must equal T(A) / C(T(A)) under its own cond and its operand kind's defining equation; .T/.H must delegate to them.",
+            "Opaque by declaration: FFT, Jacobian, Sliced values, the linear_transpose branch. Numerical agreement for nestings is not decided.", "4/C02"),
 }
 
 NOT_APPLICABLE = {
